@@ -592,3 +592,49 @@ Example literal_kinds_example :
      = PLit [111; 110] 18446744073709551615
   /\ lits_ok_pv [] 0 (PLit [111; 110] 18446744073709551615) = false.
 Proof. vm_compute. repeat split. Qed.
+
+(** * Nested blocks expect the table length of their own locale *)
+Lemma push_locale_lens : forall c n,
+  (forall b, lens_ok n b -> lens_ok (S n) (push_locale c b))
+  /\ (forall v, lens_ok_v n v -> lens_ok_v (S n) (push_locale_v c v)).
+Proof.
+  intros c n. apply bkeys_bval_ind; cbn [lens_ok lens_ok_v push_locale push_locale_v].
+  - intros _. exact I.
+  - intros k v IHv r IHr [A B]. split; [apply IHv; exact A | apply IHr; exact B].
+  - intros _. exact I.
+  - intros cs ks IH [A B]. split; [rewrite app_length; cbn [length]; lia | apply IH; exact B].
+Qed.
+
+Lemma push_locales_lens : forall cs n b, lens_ok n b -> lens_ok (length cs + n) (fold_left (fun b c => push_locale c b) cs b).
+Proof.
+  induction cs as [| c cs IH]; intros n b H; [exact H |].
+  cbn [fold_left length]. replace (S (length cs) + n)%nat with (length cs + S n)%nat by lia.
+  apply IH. apply (proj1 (push_locale_lens c n)). exact H.
+Qed.
+
+(** the default locale starts every block with one nested Locale, every other locale pushes one: after
+    `propagate_string_count` every nested block, at any depth, carries the string count of ITS top locale *)
+Theorem nested_blocks_counts : forall b0 cs tops,
+  lens_ok 1 b0 -> length tops = S (length cs) ->
+  counts_are tops (propagate tops (fold_left (fun b c => push_locale c b) cs b0)).
+Proof.
+  intros b0 cs tops H0 Hl. apply (proj1 (propagate_counts tops)). rewrite Hl.
+  replace (S (length cs)) with (length cs + 1)%nat by lia. apply push_locales_lens. exact H0.
+Qed.
+
+Lemma set_counts_ok : forall n,
+  (forall e, counts_ok_e n (set_counts_e n e) = true) /\ (forall g, counts_ok n (set_counts n g) = true).
+Proof.
+  intros n. apply entry_group_ind; cbn [counts_ok counts_ok_e set_counts set_counts_e].
+  - reflexivity.
+  - intros c nl g IH. rewrite N.eqb_refl, IH. reflexivity.
+  - reflexivity.
+  - intros k e IHe r IHr. rewrite IHe, IHr. reflexivity.
+Qed.
+
+Theorem unit_nested_counts : forall g,
+  counts_ok (N.of_nat (length (o_strings (index_locale g)))) (o_tree (index_locale g)) = true.
+Proof.
+  intros g. unfold index_locale. destruct (index_group g ix_empty) as [g1 ix1].
+  cbn [o_strings o_tree]. apply (proj2 (set_counts_ok _)).
+Qed.
